@@ -14,7 +14,7 @@
 (* A dataset is a function from graph name to a set of triples; "D" is the *)
 (* default graph.                                                          *)
 (***************************************************************************)
-EXTENDS Integers, Sequences, FiniteSets, SparqlPaths
+EXTENDS Integers, Sequences, FiniteSets, TLC, SparqlPaths
 
 Err   == [k |-> "err"]
 TrueV == [k |-> "bool", v |-> TRUE]
@@ -229,6 +229,8 @@ RowBefore(keys, i, m1, m2, c) ==
 OrderedOK(R, keys, c) == \A i \in 1..Len(R) : \A j \in (i + 1)..Len(R) : ~RowBefore(keys, 1, R[j], R[i], c)
 
 (* aggregates *)
+RECURSIVE JoinStr(_, _)
+JoinStr(ss, sep) == IF Len(ss) = 1 THEN ss[1] ELSE ss[1] \o sep \o JoinStr(Tail(ss), sep)
 RECURSIVE SumSeq(_)
 SumSeq(s) == IF s = <<>> THEN 0 ELSE Head(s).v + SumSeq(Tail(s))
 AggVals(a, grp, c) ==      \* the values the aggregate's expression takes in the group, errors removed, DISTINCT applied
@@ -248,6 +250,17 @@ AggOK(a, grp, c, x) ==
                          IF vs = <<>> THEN IsErr(x)
                          ELSE x \in SToSet(vs) /\ \A y \in SToSet(vs) : ~Before(c, x, y)
     [] a.f = "sample" -> LET vs == AggVals(a, grp, c) IN IF vs = <<>> THEN IsErr(x) ELSE x \in SToSet(vs)
+    \* AVG over integers is an exact rational: x = [k |-> "dec", n, d] with n / d = sum / count (or an integer); 0 for nothing
+    [] a.f = "avg"    -> IF \E i \in 1..Len(grp) : AllVals(a, grp, c)[i].k # "num" THEN IsErr(x)
+                         ELSE LET vs == AggVals(a, grp, c) IN
+                              IF vs = <<>> THEN x = NumV(0) \/ (x.k = "dec" /\ x.n = 0)
+                              ELSE (x.k = "num" /\ x.v * Len(vs) = SumSeq(vs)) \/ (x.k = "dec" /\ x.d > 0 /\ x.n * Len(vs) = SumSeq(vs) * x.d)
+    \* GROUP_CONCAT: some permutation of the string values joined by the separator (only judged when all values are strings)
+    [] a.f = "group_concat" ->
+         LET vs == AggVals(a, grp, c) IN
+         IF \E i \in 1..Len(vs) : vs[i].k # "str" THEN TRUE
+         ELSE IF vs = <<>> THEN x = [k |-> "str", v |-> ""]
+         ELSE x.k = "str" /\ \E f \in Permutations(1..Len(vs)) : x.v = JoinStr([i \in 1..Len(vs) |-> vs[f[i]].v], a.sep)
     [] OTHER -> TRUE
 GroupKey(keys, mu, c) == [i \in 1..Len(keys) |-> EvalExpr(keys[i], mu, c)]
 Groups(Om, keys, c) ==     \* set of groups (each a sequence); implicit single group when keys = <<>>
